@@ -101,6 +101,17 @@ fn sub_findings(c: &mut Case) -> CaseResult {
             return Err(Fail::new("cast:strict:unreferenced-storage", format!("strict cast Dictionary[1] (with an unused value -9) -> UInt64 fails: {}", e)));
         }
     }
+    if c.index == 6 {
+        // fixed 6c888e7: UnionArray::from(ArrayData) must apply the offset to the children of a sparse union
+        use arrow_array::UnionArray;
+        use arrow_schema::UnionFields;
+        let uf = UnionFields::try_new(vec![0i8], vec![Field::new("a", DataType::Int32, true)]).unwrap();
+        let u = UnionArray::try_new(uf, vec![0i8, 0, 0].into(), None, vec![std::sync::Arc::new(Int32Array::from(vec![1, 2, 3])) as ArrayRef]).unwrap();
+        let sliced = make_array(u.to_data().slice(1, 2));
+        let got = extract(sliced.as_ref());
+        let want = vec![LValue::Union(0, Box::new(LValue::Int(2))), LValue::Union(0, Box::new(LValue::Int(3)))];
+        ensure!(got == want, "arraydata-slice:row:union", "make_array(sparse_union_data.slice(1,2)) = {:?}", got);
+    }
     if c.index == 0 {
         // F1
         let st = StructArray::try_new(Fields::from(vec![Field::new("a", DataType::Int32, true)]), vec![std::sync::Arc::new(Int32Array::from(vec![1, 2, 3])) as ArrayRef], None).unwrap();
@@ -324,7 +335,7 @@ fn main() {
     Check::new("C02", "exploration", "cases = (logical type of depth<=2..3, column with a generated null pattern, two or three independent physical realisations: sliced/padded, validity present or absent, garbage under nulls, permuted/duplicated/unused dictionary values, out-of-range keys under nulls, split runs, list-view child order, several view buffers; kernel from the catalogue with auxiliary arguments realised independently per run). Sub-checks: read-back vs model, equality (same logical => equal, perturbed => unequal), congruence of kernel results and Ok/Err outcome across realisations, commutation of row-wise kernels with take/slice, ArrayData::slice as layout source. Non-trivial = column with >=1 null and >=3 rows (commutation: >=2 selected rows).")
         .assume("== on dictionary arrays compares key nulls physically: realisations keep nulls on the key side")
         .assume("kernels whose documented result depends on physical form (dictionary GC, memory sizes) are not part of the congruence check; sort outputs are compared by value (sort is not stable)")
-        .sub(Sub::new("findings", 0, 0, sub_findings).enumerate(6, 6))
+        .sub(Sub::new("findings", 0, 0, sub_findings).enumerate(7, 7))
         .sub(Sub::new("readback", 30000, 600000, sub_readback).tape(256, 6000))
         .sub(Sub::new("equality", 20000, 400000, sub_equality).tape(256, 8000))
         .sub(Sub::new("congruence", 40000, 800000, sub_congruence).tape(256, 10000))
